@@ -43,7 +43,9 @@ NUMS = [-7.5, -2.0, 0.0, 1.0, 2.5, 3.0, 4.0, 10.0, 12.5, 100.0, 1000.0]
 MIXED = [1.0, 2.0, 2.0, 3.5, -1.0, 0.0, 'a', 'A', 'b', 'ab', 'Ab', 'abc', 'k', 'K',
          'x y', '10', '3.5', True, False, 'TRUE', 7.0,
          # texts holding the wildcard characters themselves
-         'a*c', 'what', 'a?c', '*', 'axc']
+         'a*c', 'what', 'a?c', '*', 'axc',
+         # and the escape character
+         'a~', 'a~c', '~']
 
 
 def rng_arg(rows):
@@ -159,7 +161,9 @@ def run_match(rng, ctx, n_cases):
         keys = list(vec) + [v.swapcase() for v in vec if isinstance(v, str)]
         keys += [99.0, 'zz', 'a*', '?b', '*', 'A?', '*b*', 'k', 2.0, False, '1*',
                  # ~ makes the next wildcard character literal
-                 'a~*c', 'a~?c', '~*', '~**', 'a*c', 'a?c', 'wh~?t']
+                 'a~*c', 'a~?c', '~*', '~**', 'a*c', 'a?c', 'wh~?t',
+                 # ~~ is the character ~ (then a wildcard, or the end)
+                 'a~~*', 'a~~', '~~', '~~*', 'a~~?', 'a~~c', '*~~', 'a~~~*c']
         for key in keys:
             fam = 'exact:' + ('wildcard' if isinstance(key, str) and rl.wildcard(key)
                               else rl.tid(key))
@@ -343,7 +347,9 @@ CELLS = [1.0, 2.0, 2.0, 5.0, -3.0, 0.0, 10.0, 3.5, 'a', 'A', 'b', 'B', 'ab', 'ab
          # error values among the cells: no order with numbers or texts
          xl.err('#N/A'), xl.err('#DIV/0!'), xl.err('#NAME?'),
          # texts only python reads as numbers: text for a criterion
-         '1_0', 'inf', 'nan', 'Infinity', 10.0]
+         '1_0', 'inf', 'nan', 'Infinity', 10.0,
+         # the escape character of patterns
+         'a~', 'a~b', '~', 'a*', 'a?']
 OPS = ['=', '<>', '<', '>', '<=', '>=', '']
 
 
@@ -364,6 +370,8 @@ def criteria_for(rng, cells):
     out += rng.sample(['a*', '?', '*b', '<>a*', 'A?', '*', '=?b*', '<b', '>=b', '<>b',
                        '<=Cat', '>10', '<>?', 'total*', 'tota?', '<>total*', 'a?b',
                        '*2024'], 6)
+    out += rng.sample(['a~~*', 'a~~', '~~', '~~*', 'a~~?', 'a~*', 'a~?', '<>a~~*', '=a~~',
+                       '*~~', 'a~~b', '<>~~', 'a~~~*'], 3)     # ~~ is the character ~
     out.append(rng.choice(['<>', '=']))     # a bare operator: (not) blank cells
     # an error value as the criterion (the `?` of #NAME? is not a wildcard)
     e = rng.choice(['#NAME?', '#N/A', '#DIV/0!', '#name?'])
